@@ -70,6 +70,9 @@ var c15Faults = []c15Fault{
 	{"fails-after-function-call-in-same-statement", "<%= okfn() + nope %>", false},
 	{"fails-after-helper-block-in-same-statement", "<%= two(cap() { %>b<% }, nope) %>", false},
 	{"fails-after-function-call-in-argument", "<%= ci(okfn(), \"s\") %>", false},
+	// ... or runs a block whose failure the helper keeps to itself
+	{"fails-after-swallowed-block-error-in-same-statement", "<%= two(swallow() { %>\n\nb<%= nope %>\n<% }, 1 / 0) %>", false},
+	{"fails-after-tolerated-unknown-name-in-same-statement", "<%= two(nope == nil, !nope) + (1 / 0) %>", false},
 	// one mistake whose follow-up messages are on later lines: the error still
 	// starts with the line of the failing tag
 	{"cascade-on-later-lines", "<% if (true) %>\nmid\n<% } else { %>\nq\n<% } %>", true},
@@ -110,7 +113,8 @@ var c15Containers = []struct {
 	{"after-helper-block", "<%= cap() { %>\n b \n<% } %>\n", "\n", false},
 	{"after-fn-call", "<% let f3 = fn() {\n let q = 1\n return q\n} %>\n<%= f3() %>\n", "\n", false},
 	{"after-partial", "<%= partial(\"ok\") %>\n", "\n", true},
-	{"after-swallowed-error-inside-fn", "<% let f4 = fn() {\n  let w = 1\n  return nope\n} %>\n<%= if (f4()) { %>T<% } %>\n<%= !f4() %>\n", "\n", false},
+	{"after-error-swallowed-by-a-helper", "<%= swallow() { %>\n  a <%= nope %>\n<% } %>\n", "\n", false},
+	{"after-tolerated-unknown-names", "<%= if (nope) { %>T<% } %>\n<%= !nope %><%= nope == nil %>\n", "\n", false},
 	{"after-swallowed-error-in-condition", "<%= if (tt.Next.Name) { %>\nT\n<% } %>\n", "\n", false},
 }
 
@@ -123,6 +127,10 @@ func c15Ctx() *plush.Context {
 	ctx.Set("tt", newT("t"))
 	ctx.Set("ci", func(i int) int { return i })
 	ctx.Set("two", func(a, b interface{}) interface{} { return a })
+	ctx.Set("swallow", func(h plush.HelperContext) string {
+		h.Block() // whatever goes wrong in the block stays there
+		return ""
+	})
 	ctx.Set("cap", func(h plush.HelperContext) (template.HTML, error) {
 		s, err := h.Block()
 		return template.HTML(s), err
